@@ -687,6 +687,8 @@ pub fn run(args: &Args, rep: &mut Report) {
     let seed = args.seed;
     let thorough = args.thorough();
     let shard = (args.shard, args.nshards);
+    // see c18.rs: valgrind 3.19 cannot follow ring's AES-GCM assembly; its layer skips the rustls 0.20-0.22 connectors
+    let no_ring = args.extra_u64("noring", 0) == 1;
     let res = std::thread::spawn(move || {
         // real sockets: real clock
         let sys = actix_rt::System::new();
@@ -753,6 +755,9 @@ pub fn run(args: &Args, rep: &mut Report) {
             let reps = if thorough { 60 } else { 2 };
             for rep_no in 0..reps {
                 for conn in [Conn::Rustls, Conn::OpenSsl, Conn::Rustls20, Conn::Rustls21, Conn::Rustls22, Conn::NativeTls] {
+                    if no_ring && matches!(conn, Conn::Rustls20 | Conn::Rustls21 | Conn::Rustls22) {
+                        continue;
+                    }
                     // the four structurally parallel adapters: a quarter of the repetitions in the thorough tier
                     if !matches!(conn, Conn::Rustls | Conn::OpenSsl) && thorough && rep_no >= 15 {
                         continue;
